@@ -166,8 +166,11 @@ pub struct Case {
     pub round_trip: bool,
     /// serialise through the pinned reference type
     pub via_ref: bool,
-    /// 0 = from_reader, 1 = from_slice, 2 = from_str (the last two have no stream to fault)
+    /// 0 = from_reader, 1 = from_slice, 2 = from_str (the last two have no stream to fault),
+    /// 3 = a non-text deserializer that hands the entries over directly and announces a length
+    /// (`size_hint`), which serde documents as advisory: exact, absent, too small or too large
     pub api: u8,
+    pub hint: Option<u32>,
     pub wplan: StreamPlan,
     pub rplan: StreamPlan,
 }
@@ -177,7 +180,7 @@ impl Case {
         json!({
             "set": self.set, "hash": self.hash.name(), "capacity": self.capacity,
             "entries": self.entries.iter().map(|(k, v)| json!([k, v])).collect::<Vec<_>>(),
-            "round_trip": self.round_trip, "via_ref": self.via_ref, "api": self.api,
+            "round_trip": self.round_trip, "via_ref": self.via_ref, "api": self.api, "hint": self.hint,
             "write_plan": self.wplan.to_json(), "read_plan": self.rplan.to_json(),
         })
     }
@@ -190,6 +193,7 @@ impl Case {
             round_trip: v.get("round_trip")?.as_bool()?,
             via_ref: v.get("via_ref")?.as_bool()?,
             api: v.get("api")?.as_u64()? as u8,
+            hint: v.get("hint").and_then(|x| x.as_u64()).map(|x| x as u32),
             wplan: StreamPlan::from_json(v.get("write_plan")?)?,
             rplan: StreamPlan::from_json(v.get("read_plan")?)?,
         })
@@ -252,14 +256,20 @@ pub fn gen_case(seed: u64) -> Case {
     // a rough length of the document, to aim the failure offsets inside it most of the time
     let len_hint = 2 + entries.len() * 9;
     let mut wplan = if round_trip { gen_plan(&mut rng, len_hint) } else { StreamPlan::clean() };
-    let api = *rng.pick(&[0u8, 0, 0, 1, 2]);
+    let api = if round_trip { *rng.pick(&[0u8, 0, 0, 1, 2]) } else { *rng.pick(&[0u8, 0, 0, 1, 2, 3, 3]) };
+    let hint = match rng.below(5) {
+        0 => None,
+        1 => Some(0),
+        2 => Some(entries.len() as u32 + rng.range(1, 40) as u32),
+        _ => Some(entries.len() as u32),
+    };
     let mut rplan = if api == 0 { gen_plan(&mut rng, len_hint) } else { StreamPlan::clean() };
     if rng.chance(1, 3) {
         // fault-free configuration, so that the relaxations for faults hide no ordinary bug
         wplan = StreamPlan::clean();
         rplan = StreamPlan::clean();
     }
-    Case { set, hash, capacity: *rng.pick(&[0u32, 0, 1, 16, 50]), entries, round_trip, via_ref: rng.chance(1, 2), api, wplan, rplan }
+    Case { set, hash, capacity: *rng.pick(&[0u32, 0, 1, 16, 50]), entries, round_trip, via_ref: rng.chance(1, 2), api, hint, wplan, rplan }
 }
 
 fn document(c: &Case) -> String {
@@ -284,6 +294,75 @@ fn document(c: &Case) -> String {
         s.push('}');
     }
     s
+}
+
+/// A self-describing deserializer over the entries themselves (what a binary format does):
+/// announces `hint` as the length.
+struct Hinted<'a> {
+    entries: &'a [(u32, u32)],
+    hint: Option<usize>,
+    set: bool,
+}
+
+struct HintedAccess<'a> {
+    entries: &'a [(u32, u32)],
+    pos: usize,
+    hint: Option<usize>,
+}
+
+type VErr = serde::de::value::Error;
+
+impl<'de> serde::Deserializer<'de> for Hinted<'_> {
+    type Error = VErr;
+    fn deserialize_any<V: serde::de::Visitor<'de>>(self, visitor: V) -> Result<V::Value, VErr> {
+        let acc = HintedAccess { entries: self.entries, pos: 0, hint: self.hint };
+        if self.set {
+            visitor.visit_seq(acc)
+        } else {
+            visitor.visit_map(acc)
+        }
+    }
+    serde::forward_to_deserialize_any! {
+        bool i8 i16 i32 i64 i128 u8 u16 u32 u64 u128 f32 f64 char str string bytes byte_buf option unit
+        unit_struct newtype_struct seq tuple tuple_struct map struct enum identifier ignored_any
+    }
+}
+
+impl<'de> serde::de::MapAccess<'de> for HintedAccess<'_> {
+    type Error = VErr;
+    fn next_key_seed<K: serde::de::DeserializeSeed<'de>>(&mut self, seed: K) -> Result<Option<K::Value>, VErr> {
+        use serde::de::IntoDeserializer;
+        match self.entries.get(self.pos) {
+            Some((k, _)) => seed.deserialize((*k).into_deserializer()).map(Some),
+            None => Ok(None),
+        }
+    }
+    fn next_value_seed<V: serde::de::DeserializeSeed<'de>>(&mut self, seed: V) -> Result<V::Value, VErr> {
+        use serde::de::IntoDeserializer;
+        let v = self.entries[self.pos].1;
+        self.pos += 1;
+        seed.deserialize(v.into_deserializer())
+    }
+    fn size_hint(&self) -> Option<usize> {
+        self.hint
+    }
+}
+
+impl<'de> serde::de::SeqAccess<'de> for HintedAccess<'_> {
+    type Error = VErr;
+    fn next_element_seed<T: serde::de::DeserializeSeed<'de>>(&mut self, seed: T) -> Result<Option<T::Value>, VErr> {
+        use serde::de::IntoDeserializer;
+        match self.entries.get(self.pos) {
+            Some((k, _)) => {
+                self.pos += 1;
+                seed.deserialize((*k).into_deserializer()).map(Some)
+            }
+            None => Ok(None),
+        }
+    }
+    fn size_hint(&self) -> Option<usize> {
+        self.hint
+    }
 }
 
 #[derive(Default)]
@@ -405,6 +484,20 @@ fn case_body(c: &Case, st: &mut CaseStats) -> Result<(), String> {
             fired = r.fired;
             x
         }
+        (3, false) => {
+            use serde::Deserialize;
+            match PMap::deserialize(Hinted { entries: &c.entries, hint: c.hint.map(|h| h as usize), set: false }) {
+                Ok(m) => Ok(Got::Map(m)),
+                Err(e) => return Err(format!("the hinted deserializer (hint {:?}) failed: {}", c.hint, e)),
+            }
+        }
+        (3, true) => {
+            use serde::Deserialize;
+            match PSet::deserialize(Hinted { entries: &c.entries, hint: c.hint.map(|h| h as usize), set: true }) {
+                Ok(m) => Ok(Got::Set(m)),
+                Err(e) => return Err(format!("the hinted deserializer (hint {:?}) failed: {}", c.hint, e)),
+            }
+        }
         (1, false) => serde_json::from_slice::<PMap>(&text).map(Got::Map),
         (1, true) => serde_json::from_slice::<PSet>(&text).map(Got::Set),
         (_, false) => serde_json::from_str::<PMap>(std::str::from_utf8(&text).unwrap()).map(Got::Map),
@@ -514,12 +607,13 @@ pub fn minimise(c: &Case) -> Case {
                 i += 1;
             }
         }
-        for which in 0..4 {
+        for which in 0..5 {
             let mut t = cur.clone();
             match which {
                 0 => t.wplan = StreamPlan::clean(),
                 1 => t.rplan = StreamPlan::clean(),
                 2 => t.capacity = 0,
+                3 => t.hint = Some(t.entries.len() as u32),
                 _ => t.hash = HashKind::Identity,
             }
             if t != cur && fails(&t) {
@@ -540,6 +634,8 @@ pub struct SerdeStats {
     pub documents: u64,
     pub with_repeats: u64,
     pub fault_free: u64,
+    pub hinted: u64,
+    pub wrong_hints: u64,
     pub fired: Fired,
     pub read_ok: u64,
     pub read_err: u64,
@@ -568,6 +664,12 @@ pub fn run(tier: &str, seed: u64) -> (Vec<(u64, String, Case)>, SerdeStats) {
         }
         if s.repeated {
             st.with_repeats += 1;
+        }
+        if c.api == 3 {
+            st.hinted += 1;
+            if c.hint != Some(c.entries.len() as u32) {
+                st.wrong_hints += 1;
+            }
         }
         if c.wplan == StreamPlan::clean() && c.rplan == StreamPlan::clean() {
             st.fault_free += 1;
